@@ -9,6 +9,8 @@
 import TypedpyModel.Lemmas.Complete
 import TypedpyModel.Lemmas.Formats
 import TypedpyModel.Lemmas.Decimal
+import TypedpyModel.Sem.DefineBridge
+import TypedpyModel.Spec.WfDecl
 namespace Typedpy.C02
 open Typedpy
 
@@ -142,6 +144,22 @@ theorem hostname_field_exact (O : Oracles) (hO : FormatOracles O) (lo hi : Optio
       ∃ s, v = .str s ∧ w = .str s ∧ geLen lo s.length = true ∧ leLen hi s.length = true ∧ IsHostName s := by
   rw [(string_field_exact O lo hi (some hostNameToken) v).1 w]
   simp only [patOk, (hO _).2, hostNameOk_iff]
+
+/-- what an IPV4 field stores consists of ASCII digits and dots only and has 7..15 characters: no trailing newline, no
+    digit outside ASCII (the two ways in which the library's own expression is laxer: findings `…:ipv4:trailing-newline`,
+    `…:ipv4:non-ascii-digit`) -/
+theorem ipv4_field_chars (O : Oracles) (hO : FormatOracles O) (lo hi : Option Nat) (v w : PyVal)
+    (h : validate O (.string lo hi (some ipv4Token)) v = .ok w) :
+    ∃ s, w = .str s ∧ (∀ c ∈ s.toList, isAsciiDigit c = true ∨ c = '.') ∧ 7 ≤ s.toList.length ∧ s.toList.length ≤ 15 := by
+  rcases (ipv4_field_exact O hO lo hi v w).1 h with ⟨s, _, hw, _, _, hs⟩
+  exact ⟨s, hw, IsIPv4.chars s hs, IsIPv4.length s hs⟩
+
+/-- what a HostName field stores consists of ASCII letters, ASCII digits, hyphens and dots only -/
+theorem hostname_field_chars (O : Oracles) (hO : FormatOracles O) (lo hi : Option Nat) (v w : PyVal)
+    (h : validate O (.string lo hi (some hostNameToken)) v = .ok w) :
+    ∃ s, w = .str s ∧ ∀ c ∈ s.toList, isAsciiAlnum c = true ∨ c = '-' ∨ c = '.' := by
+  rcases (hostname_field_exact O hO lo hi v w).1 h with ⟨s, _, hw, _, _, hs⟩
+  exact ⟨s, hw, IsHostName.chars s hs⟩
 
 /-- **SizedString**(maxlen = m, maxLength = hi) is the `string` declaration with the tighter bound: whatever it stores
     is a `str` no longer than `m` and no longer than `hi` -/
@@ -293,6 +311,62 @@ theorem decimal_example :
           (.struct { name := "A", required := ["a"], addl := false, accepts := ["A"] }
             [("a", .seqOf .list (.number o) { uniq := true })] [])
           [("a", .items)] [("a", .list [.int 1, .float ⟨1, 1⟩])] with
+        | .error .valueErr => true | _ => false) = true := by
+  decide
+
+/-! ### classes as the class-definition model records them (Sem/DefineBridge.lean) -/
+
+/-- the documented decision of `cls(**kw)` for a class record: not abstract, the signature binds, no undeclared keyword
+    against the inherited `_additional_properties`, no keyword names a Constant, and the field rules admit the arguments -/
+def instAdmits (O : Oracles) (c : ClassDef) (ord : List String) (kw : List (String × PyVal)) : Bool :=
+  !c.isAbstract && bindOk c.opts (Bridge.defOrder c) kw && !(!c.addl && undeclaredKw c kw)
+    && !kw.any (fun a => (lookup a.1 c.constants).isSome) && admitsKw O (c.toStruct ord [c.name]) kw
+
+/-- **C02 for class records**: accepted exactly on the documented arguments, with the documented instance -/
+theorem bridge_instantiate_complete (O : Oracles) (c : ClassDef) (ord : List String) (kw : List (String × PyVal))
+    (h : instAdmits O c ord kw = true) :
+    instantiateOrd O c ord kw = .ok (addConstants c.constants (normKw O (c.toStruct ord [c.name]) kw)) := by
+  simp only [instAdmits, Bool.and_eq_true, Bool.not_eq_true'] at h
+  obtain ⟨⟨⟨⟨h1, h2⟩, h3⟩, h4⟩, h5⟩ := h
+  unfold instantiateOrd
+  have := construct_complete O _ _ _ kw h5
+  simp only [ClassDef.toStruct] at this ⊢
+  simp [h1, h2, h3, h4, this]
+
+/-- … and every rejection is a TypeError or a ValueError (or their common subclass) -/
+theorem bridge_instantiate_reject (O : Oracles) (c : ClassDef) (ord : List String) (kw : List (String × PyVal))
+    (h : instAdmits O c ord kw = false) :
+    ∃ e, instantiateOrd O c ord kw = .error e ∧ (e = .typeErr ∨ e = .valueErr ∨ e = .both) := by
+  unfold instantiateOrd
+  split; · exact ⟨_, rfl, Or.inl rfl⟩
+  split; · exact ⟨_, rfl, Or.inl rfl⟩
+  split; · exact ⟨_, rfl, Or.inr (Or.inl rfl)⟩
+  split; · exact ⟨_, rfl, Or.inr (Or.inl rfl)⟩
+  rename_i h1 h2 h3 h4
+  have h5 : admitsKw O (c.toStruct ord [c.name]) kw = false := by
+    simp only [instAdmits] at h
+    simp_all
+  rcases construct_reject O _ _ _ kw (by simpa [ClassDef.toStruct] using h5) with ⟨e, he, hc⟩
+  refine ⟨e, ?_, hc⟩
+  simp only [ClassDef.toStruct] at he ⊢
+  rw [he]; rfl
+
+/-- non-vacuity: a subclass record with an inherited bounded field, a Constant and `_additional_properties` off -/
+theorem bridge_example :
+    let O : Oracles := { reMatch := fun _ _ => true }
+    let c : ClassDef := { name := "Sub", bases := ["Base"], mro := ["Sub", "Base"],
+                          allFields := [("a", .field (.integer { min := some ⟨0, 1⟩ }) none), ("k", .const (.int 7)),
+                                        ("t", .field (.seqOf .list (.string none (some 3) none) {}) none)],
+                          constants := [("k", .int 7)], sig := { req := ["a"], opt := ["t"], kwargs := false }, addl := false }
+    wfDecl (c.toStruct ["a"] ["Sub"]) = true
+    ∧ instAdmits O c ["a"] [("a", .int 1), ("t", .list [.str "abc"])] = true
+    ∧ (match instantiateOrd O c ["a"] [("a", .int 1), ("t", .list [.str "abc"])] with
+        | .ok (.inst "Sub" attrs) => (lookup "k" attrs).isSome && (lookup "a" attrs).isSome | _ => false) = true
+    ∧ instAdmits O c ["a"] [("a", .int (-1))] = false
+    ∧ (match instantiateOrd O c ["a"] [("a", .int (-1))] with | .error .valueErr => true | _ => false) = true
+    ∧ (match instantiateOrd O c ["a"] [("t", .list [])] with | .error .typeErr => true | _ => false) = true
+    ∧ (match instantiateOrd O c ["a"] [("a", .int 1), ("k", .int 8)] with | .error _ => true | _ => false) = true
+    ∧ (match instantiateOrd O c ["a"] [("a", .int 1), ("t", .list [.str "abcd"])] with
         | .error .valueErr => true | _ => false) = true := by
   decide
 
